@@ -516,8 +516,14 @@ def run(tier, seed, workers=None):
              'every lock or condition operation of the queue; all schedules '
              'with at most <bound> preemptions (iterative context bounding), '
              'outcomes of jobs rotating over {return, silent, template, '
-             'internal, JobFailure, RuntimeError}; non-trivial = executions '
-             'with at least one preemption',
+             'internal, JobFailure, RuntimeError}; plus two sequential passes: '
+             'every ordered pair of a 25-entry menu of job outcomes '
+             '(exceptions with empty, multi-line, non-ASCII, non-string, '
+             'very long messages, OS and unicode errors, chained) x '
+             'backtrace x job kind on one worker, and every status webhook '
+             'event through the real handlers in every cache state within 3 '
+             'steps (must yield a CommitJob unless it says "build started"); '
+             'non-trivial = executions with at least one preemption',
         assumptions=['CPython GIL: switches inside C-level operations other '
                      'than the __eq__ callbacks do not exist',
                      'dispatch replaced by a recorder with a scripted '
